@@ -85,15 +85,16 @@ def truth_of(case, b, unit=None):
             return [("setUp", s.get("status"))]
         acc1 = l3.accounts_after(s, acc0)
         target = acc1[l3.FOUNDRY_TEST]["storage"].get(0, 0)
+        tsig = b.get("target_sig", "bump(uint256)")
         for n in (0, 1, K, K + 1):
-            data = l3.selector("bump(uint256)") + n.to_bytes(32, "big")
+            data = l3.selector(tsig) + n.to_bytes(32, "big")
             [u] = refevm.run_many([(acc1, l3.ref_msg(data, this=target, caller=0xCAFE, origin=0xCAFE), None, s.get("ctr", 0))], fuel=400000)
             if u.get("status") != "ok":
-                out.append((f"setUp; bump({n})", "target:" + str(u.get("status"))))
+                out.append((f"setUp; {tsig.split('(')[0]}({n})", "target:" + str(u.get("status"))))
                 continue
             acc2 = l3.accounts_after(u, acc1)
             [v] = refevm.run_many([(acc2, l3.ref_msg(l3.selector(b["test"])), None, u.get("ctr", 0))], fuel=200000)
-            out.append((f"setUp; C.bump({n}); {b['test']}", l3.classify_ref(v, {1})))
+            out.append((f"setUp; C.{tsig.split('(')[0]}({n}); {b['test']}", l3.classify_ref(v, {1})))
         return out
     for scn in b["truth"]:
         acc, ctr, res = acc0, 0, None
@@ -194,7 +195,7 @@ def run(rep, tier):
     cases = G.gen_cases(r, tier)
     r.shuffle(cases)
     # invariant and setUp cases first (they carry the runner-level statements), then the rest within the budget
-    cases.sort(key=lambda c: c["family"] not in ("invariant", "setup", "depth_multi", "stuck", "stuck_setup"))
+    cases.sort(key=lambda c: c["family"] not in ("invariant", "invariant_states", "setup", "depth_multi", "stuck", "stuck_setup"))
     res = l3.run_pool(worker, cases, timeout=240, total_timeout=420 if tier == "quick" else 1100)
     rep.coverage["l3_tasks"] = [[c["family"], json.dumps(c["params"]), " ".join(c["options"]), st, (v or {}).get("seconds") if st == "ok" else None] for c, (st, v) in zip(cases, res)]
     model_calls, model_expect = [], []
@@ -214,7 +215,7 @@ def run(rep, tier):
         tests = val["brief"]["tests"]
         status = (tests.get(sig) or {}).get("status")
         warns = val["warnings"]
-        reaching = [d for d, o in truth if str(o).startswith("panic")]
+        reaching = [d for d, o in truth if str(o).startswith("panic") or (case["family"] == "stuck" and str(o) == "unsupported")]
         rec = val["brief"]["records"].get(sig) or {}
         full = {**case, "halmos": {"status": status, "warnings": warns, "record": rec}, "truth": truth,
                 "runtime": [c.runtime.hex() for c in bb["contracts"]]}
@@ -241,7 +242,7 @@ def run(rep, tier):
             # a path that halmos could not continue: the verdict must not be PASS (whatever is printed besides)
             if status == "PASS" and reaching:
                 fail_or_known(rep, "failing-input",
-                              f"stuck {case['params']}: [PASS] {sig} although the path `{reaching[0]}` (Panic(1) on the reference interpreter) was stopped by an unsupported feature ({case['params']['kind']} in {case['params']['where']}); warnings printed: {warns}",
+                              f"stuck {case['params']}: [PASS] {sig} although the path `{reaching[0]}` ({'reaches the instruction' if case['params']['kind'].startswith('op_') else 'Panic(1)'} on the reference interpreter) was stopped by an unsupported feature ({case['params']['kind']} in {case['params']['where']}); warnings printed: {warns}",
                               case=full, sig={"kind": "stuck-path-pass", "family": "stuck", "where": case["params"]["where"]})
                 continue
             if rec.get("exitcode") is not None:
@@ -277,6 +278,22 @@ def run(rep, tier):
         for (full, want), mo in zip(model_expect, outs):
             if mo is None or mo[1:3] != want:
                 rep.fail("broken-tie", f"runner model reports warnings {mo} for the observed flags, halmos printed {want}", case=full)
+        for c, (st, v) in zip(cases, res):
+            if st != "ok" or c["family"] != "invariant_states" or m2 is None:
+                continue
+            # frontier states in execution order: post-setUp (nothing cut), then one state per state-changing target in
+            # artifact order (depth 1); deeper levels repeat the pattern.  The invariant's loop is cut exactly on the
+            # states reached through setN (symbolic trip count)
+            depth = int(c["options"][c["options"].index("--invariant-depth") + 1])
+            level, states = [0], [0]
+            for _ in range(depth):
+                level = [1 if sg.startswith("setN") else 0 for _prev in level for sg in c["params"]["order"]]
+                states += level
+            [mo] = m2.batch([("c10_inv_warned", [0, 0, *states])])
+            got = 1 if "loop_bound" in v["warnings"] else 0
+            rep.count("report_model", f"invariant_states:{c['params']['order'][0]}-first:depth={depth}:model={mo}:halmos={got}")
+            if mo != [got]:
+                rep.fail("broken-tie", f"invariant_states {c['params']} {c['options']}: report model (log accumulated over the frontier states {states}) says LOOP_BOUND warned = {mo}, halmos printed {got}", case={**c, "warnings": v["warnings"]})
         inv = [(c, v) for c, (st, v) in zip(cases, res) if st == "ok" and c["family"] in ("invariant", "setup")]
         for c, v in inv:
             K, L = c["params"]["K"], int(c["options"][1])
@@ -329,7 +346,7 @@ def run(rep, tier):
         checker_cmd="make -C coq Props/C10.vo (coq_makefile, coqc 8.16.1) after regenerating coq/Gen/GenJumpi.v and GenCutWarn.v from src/halmos/sevm.py, GenRunTest.v from src/halmos/__main__.py and GenLogFilter.v from src/halmos/logs.py",
         trusted_base=common.TRUSTED_BASE_COMMON + ["the fabricated forge artifacts + stub forge (harness/l3.py) and the extracted reference interpreter coq/Spec/Evm.v as EVM oracle"],
         assumptions=ASSUMPTIONS,
-        rule="cases = (family, parameters, halmos options): counted loops in three syntactic forms (while / negated exit test / count-down) with trip count const n, pinned by a require, the argument, arg & 7, arg % 6; planted Panic(1) when the counter equals K below/at/above --loop in {1,2,4}; a 20-iteration concrete loop under --depth; 2^k-path branch ladders under --width; setUpSymbolic with a loop; an invariant target with a loop; several tests with the same two-path body under --depth in one run (overloads of one name, another name, the same signature in a second contract), judged per test; a path stopped by an unsupported feature (symbolic memory offset / keccak size) in the test body, in a CALL / STATICCALL / DELEGATECALL callee, in a constructor, and in setUp (body / callee); "
+        rule="cases = (family, parameters, halmos options): counted loops in three syntactic forms (while / negated exit test / count-down) with trip count const n, pinned by a require, the argument, arg & 7, arg % 6; planted Panic(1) when the counter equals K below/at/above --loop in {1,2,4}; a 20-iteration concrete loop under --depth; 2^k-path branch ladders under --width; setUpSymbolic with a loop; an invariant target with a loop; several tests with the same two-path body under --depth in one run (overloads of one name, another name, the same signature in a second contract), judged per test; a path stopped by an unsupported feature (symbolic memory offset / keccak size) in the test body, in a CALL / STATICCALL / DELEGATECALL callee, in a constructor, and in setUp (body / callee); valid instructions halmos has no handler for (SELFDESTRUCT, BLOBHASH, BLOBBASEFEE; the reference interpreter confirms that the execution reaches them); an invariant whose own loop is cut on some frontier states only, in both orders of the frontier; "
              "non-trivial = some concrete execution reaches the planted failure on the reference interpreter (or the loop is concrete); distinct by hash of the case",
         partial="the L3 tie observes incompleteness only through the planted failure; --depth cuts inside setUp / targets are observed at L3 only; the early exit (ShutdownError while a stuck path is being confirmed) is excluded by hypothesis in the runner theorems",
     )
